@@ -12,7 +12,7 @@ from .c04 import taste_both, enumerate_plans
 
 ID = "C20"
 LEVEL = "fault_enumeration"
-BUDGET = {"quick": 2000, "thorough": 40000}
+BUDGET = {"quick": 800, "thorough": 16000}
 WALL_CAP = {"quick": 600, "thorough": 5400}
 RULE = ("case = generated 2D/3D plotfile x drawn level limit x all C04 storage-fault operators plus accept-biased "
         "edits (whitespace in level-header lines, '+0'/zero-padded offset spellings, FabOnDisk positions moved by "
@@ -46,6 +46,14 @@ def read_back(ctx, sig, tree, m, limit, lim_arg, descs):
             raise Violation({**sig, "oracle": "accepted-but-level-header-unreadable"},
                             f"{what}: taste accepted, but the level header of level {lv} cannot be parsed: {e}")
         expected = []
+        bulk = None
+        if len(fabs) > 16:
+            # many boxes: one pooled selection instead of box-by-box reads
+            ob = run_tool(ctx, lambda: pck[:][lv][:])
+            if not ob.ok:
+                raise Violation({**sig, "oracle": "accepted-but-unreadable", **ob.exc_sig()},
+                                f"{what}: reading all boxes of level {lv} raised {ob.exc!r}")
+            bulk = ob.value
         for b, (fname, off) in enumerate(fabs):
             fp = os.path.join(ldir, fname)
             want = None
@@ -60,11 +68,14 @@ def read_back(ctx, sig, tree, m, limit, lim_arg, descs):
                     shape = tuple(h - l + 1 for l, h in zip(lo, hi))
                     want = np.frombuffer(raw, dtype="<f8").reshape(shape + (nc,), order="F")
             expected.append(want)
-            o = run_tool(ctx, lambda: pck[:][lv][b])
-            if not o.ok:
-                raise Violation({**sig, "oracle": "accepted-but-unreadable", **o.exc_sig()},
-                                f"{what}: reading level {lv} box {b} raised {o.exc!r}")
-            got = o.value
+            if bulk is not None:
+                got = bulk[b] if b < len(bulk) else None
+            else:
+                o = run_tool(ctx, lambda: pck[:][lv][b])
+                if not o.ok:
+                    raise Violation({**sig, "oracle": "accepted-but-unreadable", **o.exc_sig()},
+                                    f"{what}: reading level {lv} box {b} raised {o.exc!r}")
+                got = o.value
             ext = tuple(h - l + 1 for l, h in zip(*idx[b])) + (nfh,)
             if not isinstance(got, np.ndarray) or got.shape != ext:
                 raise Violation({**sig, "oracle": "accepted-but-wrong-shape"},
@@ -78,7 +89,7 @@ def read_back(ctx, sig, tree, m, limit, lim_arg, descs):
                                 f"{what}: level {lv} box {b} does not hold the payload of the FAB named "
                                 f"{idx[b]} in {fname}")
             ctx.stats["boxes_read_back"] += 1
-        if len(fabs) >= 2:
+        if 2 <= len(fabs) <= 16:
             o = run_tool(ctx, lambda: pck[:][lv][:])
             if not o.ok:
                 raise Violation({**sig, "oracle": "accepted-but-unreadable", **o.exc_sig()},
@@ -92,7 +103,7 @@ def read_back(ctx, sig, tree, m, limit, lim_arg, descs):
 def run_case(ctx):
     src = ctx.src
     common.draw_env(ctx)
-    m = world.gen_world(src, max_boxes=12)
+    m = world.gen_world(src, max_boxes=12, scale=("manyboxes", "farcorner", "manyfields"), scale_rate=80)
     master = os.path.join(ctx.scratch, "master")
     world.write_plotfile(m, master)
     limit = m.nlev - 1
